@@ -135,9 +135,13 @@ inductive CfgVal where
   | int (i : Int)
   | bool (b : Bool)
   | list (l : List String)
+  /-- an empty table (`[cluster.x]` with nothing in it): set, but holds nothing -/
+  | table
   deriving DecidableEq, Repr, Inhabited
 
-/-- flattened configuration: leaf path (lower-cased key segments) ↦ value -/
+/-- flattened configuration: leaf path ↦ value.  A path is the list of the RAW (lower-cased) keys from
+    the top of viper's nested map down to the leaf; a raw key may itself contain dots
+    (`[notifier."a.b"]`). -/
 abbrev Cfg := List (List String × CfgVal)
 
 /-- `strings.Split(key, ".")` on characters; `cur` is the current segment, reversed -/
@@ -195,12 +199,77 @@ def Cfg.leafEntry (c : Cfg) (p q : List String) : Option (String × String) :=
   if p.isPrefixOf q then
     match q.drop p.length with
     | [k] => some (k, c.getString q)
-    | _ => none
+    | k :: _ => some (k, "")
+    | [] => none
   else none
 
-/-- `viper.GetStringMapString(p)`: the leaves directly under `p` -/
+/-- remove later entries with the same key -/
+def dedupKeys : List (String × String) → List (String × String)
+  | [] => []
+  | x :: xs => x :: (dedupKeys xs).filter (·.1 != x.1)
+
+/-- `viper.GetStringMapString` of node `p`: one entry per key directly under `p`; a leaf shows its
+    value as a string, a nested table shows as "" (`cast.ToString` of a map) -/
 def Cfg.leavesUnder (c : Cfg) (p : List String) : List (String × String) :=
-  c.filterMap fun e => c.leafEntry p e.1
+  dedupKeys (c.filterMap fun e => c.leafEntry p e.1)
+
+/-! #### how viper resolves a dotted key when raw keys contain dots
+
+`viper.find` → `searchIndexableWithPathPrefixes`: at every level it tries to match the LONGEST prefix
+of the remaining key components, joined by ".", against the keys of the current table, descends when
+that is a table and backtracks to shorter prefixes when the descent finds nothing.  The functions
+above (`isSet`, `get…`, `children`, `leavesUnder`) take the RAW path of a node; `Cfg.norm` computes
+the raw path viper ends up at for a dotted key, and the `v…` functions are what the handlers call. -/
+
+def Cfg.isLeaf (c : Cfg) (p : List String) : Bool :=
+  match c.get p with
+  | some .table => false
+  | some _ => true
+  | none => false
+
+/-- `strings.Join(l, ".")` on characters -/
+def joinDots : List String → List Char
+  | [] => []
+  | [x] => x.toList
+  | x :: y :: rest => x.toList ++ '.' :: joinDots (y :: rest)
+
+/-- one attempt of the prefix loop: the first `i` components of `q`, joined, as a key of node `P` -/
+def Cfg.attempt (c : Cfg) (rec : List String → List String → Option (List String)) (P q : List String) (i : Nat) :
+    Option (List String) :=
+  let key := String.ofList (joinDots (q.take i))
+  if (c.children P).contains key then
+    if i = q.length then some (P ++ [key])
+    else if c.isLeaf (P ++ [key]) then none
+    else rec (P ++ [key]) (q.drop i)
+  else none
+
+/-- the prefix loop: `i`, `i-1`, …, 1 -/
+def Cfg.tryPrefixes (c : Cfg) (rec : List String → List String → Option (List String)) (P q : List String) :
+    Nat → Option (List String)
+  | 0 => none
+  | i + 1 =>
+    match c.attempt rec P q (i + 1) with
+    | some r => some r
+    | none => c.tryPrefixes rec P q i
+
+/-- `searchIndexableWithPathPrefixes` from node `P` for the remaining components `q` (fuel ≥ |q|) -/
+def Cfg.search (c : Cfg) : Nat → List String → List String → Option (List String)
+  | 0, P, q => if q.isEmpty then some P else none
+  | fuel + 1, P, q => if q.isEmpty then some P else c.tryPrefixes (c.search fuel) P q q.length
+
+/-- the raw path of the node a dotted key resolves to -/
+def Cfg.resolve (c : Cfg) (q : List String) : Option (List String) := c.search q.length [] q
+
+/-- … or the key's own components when it resolves to nothing (then nothing is found there either) -/
+def Cfg.norm (c : Cfg) (q : List String) : List String := (c.resolve q).getD q
+
+def Cfg.vSet (c : Cfg) (q : List String) : Bool := c.isSet (c.norm q)
+def Cfg.vString (c : Cfg) (q : List String) : String := c.getString (c.norm q)
+def Cfg.vInt (c : Cfg) (q : List String) : Int := c.getInt (c.norm q)
+def Cfg.vBool (c : Cfg) (q : List String) : Bool := c.getBool (c.norm q)
+def Cfg.vSlice (c : Cfg) (q : List String) : List String := c.getSlice (c.norm q)
+def Cfg.vChildren (c : Cfg) (q : List String) : List String := c.children (c.norm q)
+def Cfg.vLeaves (c : Cfg) (q : List String) : List (String × String) := c.leavesUnder (c.norm q)
 
 /-! ### responses -/
 
@@ -258,11 +327,11 @@ inductive Getter where
   deriving DecidableEq, Repr, Inhabited
 
 def readField (c : Cfg) (root : List String) (suffix : String) : Getter → FieldVal
-  | .str => .s (c.getString (root ++ [suffix]))
-  | .int => .i (c.getInt (root ++ [suffix]))
-  | .bool => .b (c.getBool (root ++ [suffix]))
-  | .slice => .l (c.getSlice (root ++ [suffix]))
-  | .mapSS => .m (c.leavesUnder (root ++ [suffix]))
+  | .str => .s (c.vString (root ++ [suffix]))
+  | .int => .i (c.vInt (root ++ [suffix]))
+  | .bool => .b (c.vBool (root ++ [suffix]))
+  | .slice => .l (c.vSlice (root ++ [suffix]))
+  | .mapSS => .m (c.vLeaves (root ++ [suffix]))
 
 def storageFields : List (String × String × Getter) :=
   [("class-name", "class-name", .str), ("intervals", "intervals", .int), ("min-distance", "min-distance", .int),
@@ -306,33 +375,33 @@ def readFields (c : Cfg) (root : List String) (fs : List (String × String × Ge
 /-- `getClientProfile` with its TLS and SASL sub-profiles, flattened with dotted JSON names -/
 def clientProfile (c : Cfg) (name : String) : List (String × FieldVal) :=
   let root := "client-profile" :: keyPath name
-  let tlsName := c.getString (root ++ ["tls"])
-  let saslName := c.getString (root ++ ["sasl"])
+  let tlsName := c.vString (root ++ ["tls"])
+  let saslName := c.vString (root ++ ["sasl"])
   let tlsRoot := "tls" :: keyPath tlsName
   let saslRoot := "sasl" :: keyPath saslName
-  [("client-profile.name", .s name), ("client-profile.client-id", .s (c.getString (root ++ ["client-id"]))),
-   ("client-profile.kafka-version", .s (c.getString (root ++ ["kafka-version"])))] ++
-  (if c.isSet tlsRoot then
-    [("client-profile.tls.name", .s tlsName), ("client-profile.tls.certfile", .s (c.getString (tlsRoot ++ ["certfile"]))),
-     ("client-profile.tls.keyfile", .s (c.getString (tlsRoot ++ ["keyfile"]))), ("client-profile.tls.cafile", .s (c.getString (tlsRoot ++ ["cafile"]))),
-     ("client-profile.tls.noverify", .b (c.getBool (tlsRoot ++ ["noverify"])))]
+  [("client-profile.name", .s name), ("client-profile.client-id", .s (c.vString (root ++ ["client-id"]))),
+   ("client-profile.kafka-version", .s (c.vString (root ++ ["kafka-version"])))] ++
+  (if c.vSet tlsRoot then
+    [("client-profile.tls.name", .s tlsName), ("client-profile.tls.certfile", .s (c.vString (tlsRoot ++ ["certfile"]))),
+     ("client-profile.tls.keyfile", .s (c.vString (tlsRoot ++ ["keyfile"]))), ("client-profile.tls.cafile", .s (c.vString (tlsRoot ++ ["cafile"]))),
+     ("client-profile.tls.noverify", .b (c.vBool (tlsRoot ++ ["noverify"])))]
    else [("client-profile.tls", .null)]) ++
-  (if c.isSet saslRoot then
-    [("client-profile.sasl.name", .s saslName), ("client-profile.sasl.handshake-first", .b (c.getBool (saslRoot ++ ["handshake-first"]))),
-     ("client-profile.sasl.username", .s (c.getString (saslRoot ++ ["username"])))]
+  (if c.vSet saslRoot then
+    [("client-profile.sasl.name", .s saslName), ("client-profile.sasl.handshake-first", .b (c.vBool (saslRoot ++ ["handshake-first"]))),
+     ("client-profile.sasl.username", .s (c.vString (saslRoot ++ ["username"])))]
    else [("client-profile.sasl", .null)])
 
 /-- a module detail handler at configuration root `root` -/
 def moduleDetailAt (c : Cfg) (root : List String) (fs : List (String × String × Getter)) (withProfile : Bool) : Resp :=
-  if !c.isSet root then notFoundErr
+  if !c.vSet root then notFoundErr
   else ok (.module (readFields c root fs ++
-    (if withProfile then clientProfile c (c.getString (root ++ ["client-profile"])) else [])))
+    (if withProfile then clientProfile c (c.vString (root ++ ["client-profile"])) else [])))
 
 /-- `configRoot := "<kind>." + name` — the name's own dots become path separators -/
 def moduleDetail (c : Cfg) (kind name : String) (fs : List (String × String × Getter)) (withProfile : Bool) : Resp :=
   moduleDetailAt c (kind :: keyPath name) fs withProfile
 
-def moduleList (c : Cfg) (kind : String) : Resp := ok (.moduleList kind (c.children [kind]))
+def moduleList (c : Cfg) (kind : String) : Resp := ok (.moduleList kind (c.vChildren [kind]))
 
 /-- the handlers of kafka.go / config.go -/
 inductive H where
@@ -372,15 +441,16 @@ def H.ofName (h : String) : H :=
   else if h == "handlePrometheusMetrics" then .metrics
   else .unknown
 
-def notifierDetailResp (c : Cfg) (name : String) : Resp :=
-  let root := "notifier" :: keyPath name
-  if !c.isSet root then notFoundErr else
-  let cls := c.getString (root ++ ["class-name"])
-  if cls == "http" then moduleDetail c "notifier" name notifierHTTP false
-  else if cls == "email" then moduleDetail c "notifier" name notifierEmail false
-  else if cls == "slack" then moduleDetail c "notifier" name notifierSlack false
-  else if cls == "null" then moduleDetail c "notifier" name notifierCommon false
+def notifierDetailAt (c : Cfg) (root : List String) : Resp :=
+  if !c.vSet root then notFoundErr else
+  let cls := c.vString (root ++ ["class-name"])
+  if cls == "http" then moduleDetailAt c root notifierHTTP false
+  else if cls == "email" then moduleDetailAt c root notifierEmail false
+  else if cls == "slack" then moduleDetailAt c root notifierSlack false
+  else if cls == "null" then moduleDetailAt c root notifierCommon false
   else { code := 200, ctype := .none, err := none, payload := .other "empty" }
+
+def notifierDetailResp (c : Cfg) (name : String) : Resp := notifierDetailAt c ("notifier" :: keyPath name)
 
 def handleH {W : Type} (be : Backend W) (w : W) (ps : Params) : H → W × Resp
   | .clusterList => (w, ok (.names "clusters" (be.clusters w)))
